@@ -63,6 +63,7 @@ type AssertRec struct {
 
 type State struct {
 	E        *Engine
+	pendingGo []pendingGo // goroutines started by go statements, not yet run (see vRunGoroutines)
 	mem      map[*Object]Value
 	prefix   []bool
 	pos      int
@@ -470,4 +471,13 @@ func (st *State) fallbackCheck(q *Term) string {
 		}
 	}
 	return "unknown"
+}
+
+// pendingGo is a goroutine created by a go statement: the function value and
+// the arguments as evaluated at the statement. The single-threaded model runs
+// it when the harness says so (vRunGoroutines), i.e. at a later point of the
+// creating goroutine - one of the schedules Go allows.
+type pendingGo struct {
+	fn   Value
+	args []Value
 }
